@@ -298,4 +298,7 @@ func rulesC02(e *Engine, r *Report) {
 		e.checkPartReceived(r, "R02.8", sc2)
 		e.checkReceivedLeading(r, "R02.8")
 	}
+	// ---------------------------------------------------------------- R02.9
+	r.Rule("R02.9", "the verdict the sender releases on belongs to the version polled: the cache refill from the receive log never replaces a live entry (the state of the version in flight) by the `logged` record of an older delivery of the same name - the look-up guarding the insert is on the same map and key as the insert - shared with R05.6")
+	e.checkRefillKeepsLive(r, "R02.9")
 }
